@@ -73,7 +73,7 @@ REQUIRED = ['mode:' + m for m in MODES] + [
     'kind:gauss', 'kind:lognorm', 'kind:trunc', 'kind:pooled', 'kind:hetero', 'noncentered', 'cov', 'cov:1d', 'cov:2d',
     'red', 'ns=last', 'ns!=last', 'last:hll', 'last:set', 'last:none', 'inner:pop', 'prior:table', 'prior:cont',
     'post:poplevel', 'post:param_map', 'post:individual', 'post:default_individual', 'decoded', 'stat:hetero_rows', 'post:param_map_cycle',
-    'user_error_model_reused', 'seed:numpy_int']
+    'user_error_model_reused', 'seed:numpy_int', 'last_time_at_dose']
 TINY = 1e-9
 ENV_SD = 9.0
 SEEDS = st.integers(0, 2 ** 31 - 2)
@@ -105,8 +105,13 @@ def _draw_mech(draw, pk):
         reg = None
         if not gen.chance(draw, 0.1):
             period = None if gen.chance(draw, 0.3) else draw(gen.logu(0.5, 6.0))
+            start = draw(gen.logu(0.05, 8.0))
+            if period is not None and gen.chance(draw, 0.35):
+                # decimal periods / starts: their multiples are not exactly representable
+                period = draw(st.sampled_from([0.5, 0.6, 0.7, 1.1, 1.3]))
+                start = draw(st.sampled_from([0.1, 0.2, 0.5, 1.7]))
             num = None if (period is None or gen.chance(draw, 0.4)) else draw(st.integers(1, 4))
-            reg = dict(dose=draw(gen.logu(0.2, 5.0)), start=draw(gen.logu(0.05, 8.0)),
+            reg = dict(dose=draw(gen.logu(0.2, 5.0)), start=start,
                        duration=draw(gen.logu(0.01, 0.4)), period=period, num=num)
         return dict(kind='pk', regimen=reg, n_par=3, n_tot=1, sel=[0])
     n_tot = draw(st.integers(1, 2))
@@ -461,6 +466,15 @@ def _spec(draw):
     if mode == 'poppred' and s['stat'] and s['wm']:
         n_min = int(math.ceil((mech['n_par'] + 2.0) / n_out))
     s['times'] = _draw_times(draw, n_min)
+    reg = mech.get('regimen') if pk else None
+    if reg and reg['period'] and gen.chance(draw, 0.3):
+        # the last measurement is taken exactly at a (later) dose time
+        k = draw(st.integers(0, 12))
+        if reg['num']:
+            k = min(k, reg['num'] - 1)
+        tf = reg['start'] + k * reg['period']
+        s['times'] = [t for t in s['times'] if t < tf][:4] + [tf]
+        s['last_at_dose'] = True
     return s
 
 
@@ -1681,6 +1695,8 @@ def classify(spec):
         labs.append('user_error_model_reused')
     if s.get('seed_form', 'int') != 'int':
         labs.append('seed:numpy_int')
+    if s.get('last_at_dose'):
+        labs.append('last_time_at_dose')
     if s['ns'] is None and not s['stat']:
         labs.append('ns=None')
     if 'pop' in s:
